@@ -1,9 +1,10 @@
 HARNESSES = {}
-for _g in range(1, 7):
-    HARNESSES["c13_g%d" % _g] = {"src": ["harness/c13.cc"], "variant": "asan", "flags": ["-DVF_GROUP=%d" % _g]}
+_NG = 12
+for _g in range(1, _NG + 1):
+    HARNESSES["c13_g%d" % _g] = {"src": ["harness/c13.cc"], "variant": "asan", "flags": ["-DVF_GROUP=%d" % _g] + (NOAC if _g > 6 else [])}
 
-def _runs(tier):
+def _runs(tier, _NG=_NG):
     d = "2" if tier == "quick" else "3"
-    return [{"harness": "c13_g%d" % g, "args": ["--depth", d], "budget": 240 if tier == "quick" else 2400} for g in range(1, 7)]
+    return [{"harness": "c13_g%d" % g, "args": ["--depth", d], "budget": 240 if tier == "quick" else 2400} for g in range(1, _NG + 1)]
 
 CHECKS = {"C13": {"runs": _runs, "level": "model_checking", "parallel_runs": 3, "deadline": {"quick": 280, "thorough": 2700}}}
